@@ -27,6 +27,7 @@ def run(ctx):
     ctx.rule("P1", "who-must-log: a push / extend onto TransactionInner.pending is dominated by a patch-log call, or every path from it to a return passes one or the is_active() == false edge")
     ctx.rule("P4", "PatchLog::get_path_map: the cached path map is dropped on an (in)equality test of path_hint against events_len(), not an ordering test (any event logged since invalidates it)")
     ctx.rule("P5", "ValueState::{map_process, list_flush}: the conflict argument of every put_map / put_seq / replace_seq is computed from the patch state, never a literal")
+    ctx.rule("P6", "ValueState::process_doc_op: the document op whose value enters the patch state went through Op::fix_counter (a counter's displayed value includes its increments)")
     ctx.rule("P2", "C15 R7-pair re-run")
     ctx.rule("P3", "C24 E6 (delete_seq lengths) and E4 (Untangler index steps) re-run")
     f = ctx.facts()
@@ -107,6 +108,7 @@ def run(ctx):
     ctx.floor("local-op recording sites in transaction::inner", n, 8)
     check_patch_state_flags(ctx, f)
     check_path_hint(ctx, f)
+    check_doc_counter(ctx, f)
     C15.check_expose_pair(ctx, f)
     C24.check_delete_lengths(ctx, f)
     C24.check_untangler_index(ctx, f)
@@ -155,3 +157,25 @@ def check_path_hint(ctx, f):
     ok = bool(tests) and all(t in ("Eq", "Ne") for t in tests)
     ctx.ob("P4", "get_path_map|cache valid only when nothing was logged since", ok, b.rec["sp"], "equality test" if ok else
            "the cached object paths are kept under an ordering test (%s): events logged after the paths were computed (an object moved inside a list) leave patches addressed to the old path" % tests)
+
+
+def check_doc_counter(ctx, f):
+    PD = [p for p in f.fns if norm_fn(p) == "automerge::op_set2::change::batch::ValueState::process_doc_op"]
+    if len(PD) != 1:
+        raise facts.AnchorMissing("ValueState::process_doc_op")
+    b = cfg.body(f.fns[PD[0]])
+    ctx.analysed_fns.add(PD[0])
+    sets = [(bi, t) for bi, t in b.calls() if (callee(t) or "").endswith("batch::OpValueOption::set")]
+    ctx.floor("OpValueOption::set calls in process_doc_op", len(sets), 1)
+    fixes = [(bi, t) for bi, t in b.calls() if (callee(t) or "").endswith("op::Op::fix_counter") or (norm_fn(t.get("fn")) or "").endswith("Op::fix_counter")]
+    for k, (bi, t) in util.ordinal_keys(sets, lambda it: "process_doc_op|value recorded"):
+        hv = [(hb, ht) for hb, ht in b.calls() if (norm_fn(ht.get("fn")) or "").endswith("Op::hydrate_value") and b.block_dominates(hb, bi)]
+        ok = False
+        for hb, ht in hv:
+            ho = b.operand_origin(ht["args"][0])
+            for fb, ft in fixes:
+                fo = b.operand_origin(ft["args"][0])
+                if ho and fo and ho[0] == fo[0] and b.block_dominates(fb, hb):
+                    ok = True
+        ctx.ob("P6", k, ok, t["sp"], "fix_counter on the op before its value is taken" if ok else
+               "a document op's creation value is recorded as what is on display: for a counter the increments held by its successors are missing, so an exposing put patch carries a stale count")
